@@ -187,3 +187,7 @@ accumulate_func = Contract(
     replay="oracles.c20:accumulate_func", default_elem=Real,
     stated=["all accumulate strategies give running sums (func strategy)"],
 )
+
+
+from pyvc.bounded import bounded_check
+zcross.extra_checks = [bounded_check("bounded.c20", "analysis-tools-symrun", ["C20"])]
